@@ -32,7 +32,13 @@ RULE = ("(1) a systematic grid: every duration construct (terminate after / wait
         "scenario (modular or plain) with setup and compose, up to 2 nested sub-scenarios "
         "invoked with do / do-for / do-until (sequential and parallel), 1-4 agents with "
         "behaviours and sub-behaviours, monitors, records, every termination construct, "
-        "require, preconditions/invariants on scenarios and behaviours; each program simulated "
+        "require, preconditions/invariants on scenarios and behaviours; a quarter of the programs "
+        "are built around a monitor required by a sub-scenario (nesting depth 1-2, invoked with "
+        "do / do-for / do-until / in parallel with another sub-scenario / repeatedly in a loop) "
+        "that executes terminate or terminate simulation at a generated step while its invoker "
+        "has more to do (classes shape:monitor-terminate-scope, monitor-terminate-in-"
+        "subscenario[:parent-resumes|:sibling-continues|:depth2], monitor-terminate-simulation-"
+        "in-subscenario); each program simulated "
         "under 6 plans = (truth table of its atoms, per-step agent schedule returned as list / "
         "tuple / one-shot iterator, maxSteps 2..8, timestep in {2,1,0.5,0.25,0.1,0.2}, "
         "raiseGuardViolations, optionally re-simulating the scene of the previous plan, "
@@ -71,7 +77,10 @@ ATOMS = ["c0", "c1", "c2", "c3"]
 def programs(draw):
     nb = draw(st.integers(1, 3))
     nm = draw(st.integers(0, 2))
-    ns = draw(st.sampled_from([0, 0, 1, 1, 2]))
+    # a quarter of the programs are built around "a monitor required by a sub-scenario executes
+    # terminate [simulation] while that sub-scenario runs" (see scope_shape below)
+    scope = draw(st.integers(0, 3)) == 0
+    ns = draw(st.sampled_from([1, 2, 2] if scope else [0, 0, 1, 1, 2]))
     tagc = [0]
 
     def tag(prefix):
@@ -225,6 +234,65 @@ def programs(draw):
                        else [kk, draw(st.sampled_from(ATOMS))])
         return out
 
+    def scope_shape(scenarios, monitors):
+        """Sub-scenario S_i requires a monitor that executes `terminate` (sometimes `terminate
+        simulation`) at a generated step; S_i is invoked for certain (do / do-for / do-until /
+        parallel / in a loop, from Main or through S_1) and its invoker has something left to
+        do afterwards.  No other monitor is instantiated in S_i or below it (what happens to
+        sibling monitors of a stopped scenario within the step is not documented)."""
+        i = draw(st.integers(1, ns))
+        what = "terminate_sim" if draw(st.integers(0, 3)) == 0 else "terminate"
+        a = draw(st.sampled_from(ATOMS))
+        style = draw(st.integers(0, 3))
+        if style == 0:
+            body = [["wait_for", *dur()], ["log", tag("m")], [what]]
+        elif style == 1:
+            body = [["wait_until", a], ["log", tag("m")], [what]]
+        else:
+            body = [["wait"]] * draw(st.integers(0, 2)) + [
+                ["while", None, [["if", a, [["log", tag("m")], [what]], []], ["wait"]]]]
+        mt = {"name": f"M{len(monitors)}", "body": body}
+        monitors.append(mt)
+        for sc in scenarios[i:]:
+            sc["setup"] = [x for x in sc["setup"] if x[0] != "monitor"]
+        scenarios[i]["setup"].append(["monitor", mt["name"]])
+        if draw(st.integers(0, 2)) == 0:
+            # the monitor is the only thing that can end the sub-scenario
+            scenarios[i]["compose"] = draw(st.sampled_from(
+                [None, [["while", None, [["log", tag("c")], ["wait"]]]]]))
+
+        # most of the time nothing else ends the run early
+        for sc in (scenarios[0], scenarios[i]):
+            if draw(st.integers(0, 3)):
+                sc["pre"], sc["inv"] = [], []
+                sc["setup"] = [x for x in sc["setup"] if not x[0].startswith("term_")]
+
+        def invoke(j, k):
+            sc = scenarios[j]
+            names = [f"S{k}"]
+            if j == 0 and ns == 2 and draw(st.booleans()):
+                # in parallel with the other sub-scenario, which goes on when this one is ended
+                names.insert(draw(st.integers(0, 1)), f"S{3 - k}")
+            form = draw(st.integers(0, 5))
+            if form == 0:
+                do = ["do_for", names, *dur()]
+            elif form == 1:
+                do = ["do_until", names, cond()]
+            else:
+                do = ["do", names]
+            if form == 2:
+                do = ["for", 2, [do]]
+            comp = sc["compose"] if sc["compose"] is not None else []
+            at = draw(st.integers(0, len(comp))) if draw(st.booleans()) else 0
+            after = [["log", tag("c")], ["wait"]] + [["wait"]] * draw(st.integers(0, 2))
+            sc["compose"] = comp[:at] + [do] + after + comp[at:]
+
+        if i == 2 and draw(st.booleans()):
+            invoke(1, 2)
+            invoke(0, 1)
+        else:
+            invoke(0, i)
+
     scenarios = []
     for i in range(ns + 1):
         has_compose = draw(st.integers(0, 3)) > 0 if i == 0 else draw(st.booleans())
@@ -243,10 +311,15 @@ def programs(draw):
             inv.append(gcond())
         scenarios.append({"name": "Main" if i == 0 else f"S{i}", "pre": pre, "inv": inv,
                           "setup": setup(i), "compose": comp})
+    if scope:
+        scope_shape(scenarios, monitors)
     toplevel = (ns == 0 and scenarios[0]["compose"] is None and not scenarios[0]["pre"]
                 and not scenarios[0]["inv"] and draw(st.booleans()))
-    return {"behaviors": behaviors, "monitors": monitors, "scenarios": scenarios,
+    prog = {"behaviors": behaviors, "monitors": monitors, "scenarios": scenarios,
             "toplevel": toplevel}
+    if scope:
+        prog["shape"] = "monitor-terminate-scope"  # (a label for the class histogram only)
+    return prog
 
 
 def agent_names(prog):
@@ -306,6 +379,16 @@ CELLS = [
     ("monitors", ("mon-terminate", "mon-terminate-sim")),
     ("sub-scenarios", ("sub-reqlike", "sub-scenario", "parallel-do")),
     ("sub-behaviours", ("sub-behavior", "do-limit-hit")),
+]
+
+
+#: generator shapes around the scope of `terminate` / `terminate simulation` in a monitor
+SCOPE_CLASSES = [
+    ("mon-terminate-sub", "monitor-terminate-in-subscenario"),
+    ("mon-terminate-sub:parent-resumes", "monitor-terminate-in-subscenario:parent-resumes"),
+    ("mon-terminate-sub:sibling-continues", "monitor-terminate-in-subscenario:sibling-continues"),
+    ("mon-terminate-sub:depth2", "monitor-terminate-in-subscenario:depth2"),
+    ("mon-terminate-sim-sub", "monitor-terminate-simulation-in-subscenario"),
 ]
 
 
@@ -468,6 +551,8 @@ def judge(case):
         out.fail("compile|" + core.exc_signature(e), source=M.emit(prog), error=repr(e)[:500])
         return out
     n_initial = sum(1 for s in prog["scenarios"][0]["setup"] if s[0] == "obj")
+    if prog.get("shape"):
+        out.cls("shape:" + prog["shape"])
     judged = 0
     poisoned = False
     prev_scene = None
@@ -501,6 +586,7 @@ def judge(case):
             prev_scene = None
         feats = set().union(*[r["features"] for r in exps])
         out.cls("run:judged", *["f:" + f for f in sorted(feats)])
+        out.cls(*[c for f, c in SCOPE_CLASSES if f in feats])
         if len(exps) > 1:
             out.cls("readings>1")
         e0 = exps[0]
@@ -630,6 +716,54 @@ def grid_cases():
         p = base(); p["scenarios"].append(sub([], guard(st_)))
         p["scenarios"][0]["compose"] = [["do", ["S1"]], ["log", "after"], ["wait"], ["wait"]]
         cprogs.append(p)                                            # compose of a sub-scenario
+    # a monitor required by a sub-scenario executes terminate / terminate simulation: only
+    # `terminate simulation` ends the simulation, `terminate` ends the scenario which
+    # instantiated the monitor (its invoker resumes at the next step, the rest of the step runs)
+    def sub_with_monitor(name, obj, compose=None, monitor="M1"):
+        return {"name": name, "pre": [], "inv": [], "compose": compose,
+                "setup": [["obj", obj, "B1"]] + ([["monitor", monitor]] if monitor else [])}
+
+    alive = [["while", None, [["log", "sub"], ["wait"]]]]
+    tail = [["log", "after"], ["wait"], ["wait"]]
+    for st_ in (["terminate"], ["terminate_sim"]):
+        def mon_prog(body=None):
+            p = base()
+            p["monitors"].append({"name": "M1", "body": body or [
+                ["while", None, [["log", "m1"], ["if", "c0", [st_], []], ["wait"]]]]})
+            return p
+
+        for comp in (None, alive):                                  # do S1
+            p = mon_prog(); p["scenarios"].append(sub_with_monitor("S1", "a2", comp))
+            p["scenarios"][0]["compose"] = [["do", ["S1"]]] + tail
+            cprogs.append(p)
+        p = mon_prog(); p["scenarios"].append(sub_with_monitor("S1", "a2", alive))
+        p["scenarios"][0]["compose"] = [["log", "lead"], ["wait"], ["do_for", ["S1"], 2, "steps"]] + tail
+        cprogs.append(p)                                            # do S1 for 2 steps
+        p = mon_prog(); p["scenarios"].append(sub_with_monitor("S1", "a2"))
+        p["scenarios"][0]["compose"] = [["do_until", ["S1"], "c1"]] + tail
+        cprogs.append(p)                                            # do S1 until (never)
+        p = mon_prog(); p["scenarios"].append(sub_with_monitor("S1", "a2", alive))
+        p["scenarios"].append(sub_with_monitor(
+            "S2", "a3", [["log", "s2"], ["wait"]] * 3, monitor=None))
+        p["scenarios"][0]["compose"] = [["do", ["S1", "S2"]]] + tail
+        cprogs.append(p)                                            # do S1, S2 (S2 goes on)
+        p = mon_prog(); p["scenarios"].append(sub_with_monitor("S2", "a3", alive))
+        p["scenarios"].insert(1, sub_with_monitor(
+            "S1", "a2", [["do", ["S2"]], ["log", "s1-after"], ["wait"]], monitor=None))
+        p["scenarios"][0]["compose"] = [["do", ["S1"]]] + tail
+        cprogs.append(p)                                            # nesting depth 2
+        p = mon_prog(); p["scenarios"].append(sub_with_monitor("S1", "a2"))
+        p["scenarios"][0]["compose"] = [["for", 2, [["do", ["S1"]], ["log", "again"], ["wait"]]]] + tail
+        cprogs.append(p)                                            # a fresh monitor per invocation
+        p = mon_prog([["log", "m1-start"], ["wait_for", 2, "steps"], ["log", "m1-after"], st_])
+        p["scenarios"].append(sub_with_monitor("S1", "a2", alive))
+        p["scenarios"][0]["compose"] = [["wait_until", "c0"], ["do", ["S1"]]] + tail
+        cprogs.append(p)                                            # the monitor's own clock
+        p = mon_prog(); p["scenarios"].append(sub_with_monitor("S1", "a2", alive, monitor=None))
+        p["scenarios"][0]["setup"] = [x for x in p["scenarios"][0]["setup"] if x[0] != "monitor"]
+        p["scenarios"][0]["setup"].append(["monitor", "M1"])
+        p["scenarios"][0]["compose"] = [["do", ["S1"]]] + tail
+        cprogs.append(p)                                            # monitor of the invoker
     for k in ("term_when", "term_sim_when"):
         p = base(); p["scenarios"][0]["setup"].append([k, "c0"]); cprogs.append(p)
     p = base(); p["behaviors"][0]["body"] = [["wait_until", "c0"]] + forever(2); cprogs.append(p)
